@@ -30,6 +30,7 @@ fn profile(ctx: &Ctx) -> Profile {
     p.strukt = true;
     p.list = true;
     p.large_list = true;
+    p.list_view = true;
     p.fsl = true;
     p.map = true;
     p.dict = true;
@@ -45,7 +46,7 @@ fn profile(ctx: &Ctx) -> Profile {
 fn zero_width(dt: &DataType) -> bool {
     match dt {
         DataType::FixedSizeBinary(0) | DataType::FixedSizeList(_, 0) => true,
-        DataType::List(f) | DataType::LargeList(f) | DataType::FixedSizeList(f, _) | DataType::Map(f, _) => zero_width(f.data_type()),
+        DataType::List(f) | DataType::LargeList(f) | DataType::ListView(f) | DataType::LargeListView(f) | DataType::FixedSizeList(f, _) | DataType::Map(f, _) => zero_width(f.data_type()),
         DataType::Struct(fs) => fs.iter().any(|f| zero_width(f.data_type())),
         DataType::Dictionary(_, v) => zero_width(v),
         _ => false,
